@@ -148,6 +148,8 @@ func (in *Interp) resetPath(prefix []Decision) {
 	in.curThread = 0
 	in.stack = in.stack[:0]
 	in.tags = nil
+	in.extInit = map[*ssa.Package]bool{}
+	in.onceDone = map[string]bool{}
 	in.solver.asserted = 0
 }
 
